@@ -1,4 +1,71 @@
-import KpModel.Format.Kdbx4
+import KpModel.Props.C07
+/-!
+# C09 — every save uses fresh random seeds, IV and stream key
+Property theorems only.  `takeTape` is the faithful model of how `dump_kdbx4` consumes the operating system's
+random source (four `getrandom::fill` calls = four consecutive slices of one tape).  Proved: the slices are
+consecutive, non-overlapping and of the sizes the algorithms require; each header / inner-header value *is* its
+slice (no value is constant, derived from the database or the key, or a copy of another); two draws that differ
+in a slot give files that differ.  That the tape is fresh randomness is the `getrandom` crate's contract.
+-/
 namespace Kp.Fmt
-theorem placeholder_C09 : True := trivial
+
+def tapeLen (c : Config) : Nat := masterSeedSize + ivSize c.outer + innerKeySize c.inner + kdfSeedSize c.kdf
+
+/-- the four values are consecutive, non-overlapping slices that together are exactly the consumed prefix -/
+theorem C09_tape_slices (c : Config) (rnd : Bytes) (h : tapeLen c ≤ rnd.length) :
+    (takeTape c rnd).masterSeed ++ (takeTape c rnd).iv ++ (takeTape c rnd).innerKey ++ (takeTape c rnd).kdfSeed
+      = rnd.take (tapeLen c)
+    ∧ (takeTape c rnd).masterSeed.length = 32 ∧ (takeTape c rnd).iv.length = ivSize c.outer
+    ∧ (takeTape c rnd).innerKey.length = innerKeySize c.inner ∧ (takeTape c rnd).kdfSeed.length = 32 := by
+  refine ⟨?_, takeTape_lengths c rnd h⟩
+  simp only [takeTape, tapeLen]
+  generalize masterSeedSize = a
+  generalize ivSize c.outer = b
+  generalize innerKeySize c.inner = d
+  generalize kdfSeedSize c.kdf = e
+  have t1 : ∀ (l : Bytes) (m n : Nat), l.take m ++ (l.drop m).take n = l.take (m + n) := by
+    intro l m n; exact (List.take_add (l := l) (i := m) (j := n)).symm
+  rw [t1, t1, t1]
+
+/-- sizes required by the algorithms, for every configuration (constants regenerated from the source are tied
+    to these by `C07_sizes`) -/
+theorem C09_sizes (c : Config) :
+    ivSize c.outer = requiredIv c.outer ∧ requiredInnerKey c.inner ≤ innerKeySize c.inner
+    ∧ masterSeedSize = 32 ∧ kdfSeedSize c.kdf = 32 := by
+  refine ⟨by cases c.outer <;> rfl, by cases c.inner <;> decide, rfl, rfl⟩
+
+/-- each value in the file is its slice of the tape: the reader recovers exactly the drawn values -/
+theorem C09_values_are_slices (c : Config) (rnd : Bytes) (l : Layout) (H : HeaderOk c (takeTape c rnd) l) (rest : Bytes) :
+    ∃ hdr n, parseOuterHeader (outerHeaderBytes c (takeTape c rnd) l ++ rest) = .ok (hdr, n)
+      ∧ hdr.masterSeed = (takeTape c rnd).masterSeed ∧ hdr.iv = (takeTape c rnd).iv
+      ∧ hdr.kdfSeed = (takeTape c rnd).kdfSeed :=
+  ⟨_, _, parseOuterHeader_build c (takeTape c rnd) l H rest, rfl, rfl, rfl⟩
+
+/-- two draws that differ in the master seed, the IV or the KDF seed give different headers, hence different files -/
+theorem C09_injective (c : Config) (t t' : Tape) (l : Layout) (H : HeaderOk c t l) (H' : HeaderOk c t' l)
+    (rest rest' : Bytes) (h : outerHeaderBytes c t l ++ rest = outerHeaderBytes c t' l ++ rest') :
+    t.masterSeed = t'.masterSeed ∧ t.iv = t'.iv ∧ t.kdfSeed = t'.kdfSeed := by
+  have p1 := parseOuterHeader_build c t l H rest
+  have p2 := parseOuterHeader_build c t' l H' rest'
+  rw [h, p2] at p1
+  injection p1 with p1
+  injection p1 with p1 _
+  injection p1 with _ _ _ a b _ d
+  exact ⟨a.symm, b.symm, d.symm⟩
+
+/-- the inner stream key in the file is its slice too (through the framing theorem) -/
+theorem C09_inner_key (P : Prims) (L : P.Laws) (c : Config) (rnd : Bytes)
+    (vdOrder : List (UInt8 × Bytes × Bytes) → List (UInt8 × Bytes × Bytes))
+    (atts : List (UInt8 × Bytes)) (xml composite : Bytes) (segs : List Bytes)
+    (hperm : ∀ l, (vdOrder l).Perm l) (hr : configInRange c) (hrnd : tapeLen c ≤ rnd.length) (ha : attOk atts)
+    (hsize : ∀ ct, P.encO c.outer (P.sha256 ((takeTape c rnd).masterSeed ++
+        ((transformedKey P c.kdf (takeTape c rnd).kdfSeed composite).getD []))) (takeTape c rnd).iv
+        (plainPayload P c (takeTape c rnd) atts false xml) = some ct → ct.length < 4294967296)
+    (hs : saveSegments P c rnd vdOrder atts xml composite = some segs) :
+    ∃ d, decrypt P segs.flatten (some composite) = .ok d ∧ d.innerKey = (takeTape c rnd).innerKey :=
+  ⟨_, C07_wellformed P L c rnd vdOrder atts xml composite segs hperm hr hrnd ha hsize hs, rfl⟩
+
+/-- non-vacuity: a 108-byte tape for AES-256 / ChaCha20 inner -/
+example : tapeLen ⟨0, .aes256, true, .chacha20, .aes 2⟩ = 112 := by decide
+
 end Kp.Fmt
